@@ -85,6 +85,33 @@ FLOORS = {"C03.1": 1, "C03.2": 1, "C03.3": 1, "C03.4": 3, "C03.5": 1,
 FN = "evo.core.geometry.umeyama_alignment"
 
 
+def _documented_layout(a: T):
+    """the property is about 3-D point sets passed as 3 x n arrays (the
+    documented layout): shape tests that only sort out other layouts are
+    decided for that case"""
+    from ..lib import strip_asarray
+    if a.op != "cmp":
+        return None
+    op, l, r = a.args
+    l = strip_asarray(l)
+    while r.op == "named":
+        r = r.args[1]
+    pts = (tm.param("x"), tm.param("y"))
+    if l.op == "attr" and l.args[1] == "ndim" and l.args[0] in pts and \
+            tm.is_const(r) and op in ("Eq", "NotEq"):
+        return (tm.const_val(r) == 2) == (op == "Eq")
+    if l.op == "sub" and tm.is_const(l.args[1], 0) and \
+            l.args[0].op == "attr" and l.args[0].args[1] == "shape" and \
+            l.args[0].args[0] in pts:
+        if op in ("In", "NotIn") and r.op in ("tuple", "list", "set") and \
+                all(tm.is_const(z) for z in r.args):
+            return (3 in [tm.const_val(z) for z in r.args]) == (op == "In")
+        if op in ("Eq", "NotEq") and tm.is_const(r) and \
+                isinstance(tm.const_val(r), int):
+            return (tm.const_val(r) == 3) == (op == "Eq")
+    return None
+
+
 def check(ctx):
     prog = ctx.prog
     f = prog.func(FN)
@@ -95,7 +122,8 @@ def check(ctx):
     x, y = tm.param("x"), tm.param("y")
     for ws in (True, False):
         # parameters added later are analysed at their defaults
-        r = Interp(prog).run(f, dict(extra, with_scale=const(ws)))
+        r = Interp(prog, assume=_documented_layout).run(
+            f, dict(extra, with_scale=const(ws)))
         ctx.analysed["configs"] += 1
         svd = r.calls("numpy.linalg.svd")
         ctx.require(len(svd) == 1, "SVD call not found (unknown idiom)")
